@@ -45,6 +45,7 @@ var gvcAPIScenarios = []gvcAPIScenario{
 	{"comment-group-emptied-by-one-change-then-an-import-added-by-the-next", "@@\nvar x, y expression\n@@\n-foo(x, y)\n+y\n\n@@\n@@\n+import \"fmt\"\n\n-2\n+fmt.Println()\n", "package a\n\nfunc f() {\n\tfoo(1, // c\n\t\t2)\n}\n", true},
 	{"comments-of-a-function-between-two-rewritten-calls", "@@\nvar a, b expression\n@@\n-x := foo(a, b)\n+x := foo(a, b...)\n", "package a\n\nfunc first() {\n\tx := foo(1, xs)\n\t_ = x\n}\n\n// Doc of middle.\nfunc middle() {\n\t// inside middle\n\tbar() // trailing in middle\n}\n\nfunc last() {\n\tx := foo(2, ys)\n\t_ = x\n}\n", true},
 	{"second-change-visits-a-comment-group-emptied-by-the-first", "@@\n@@\n-one()\n+uno()\n\n@@\n@@\n-foo()\n+x.y\n\n@@\n@@\n-baz()\n+qux()\n", "package a\n\nfunc f() {\n\tvar x = one() // c\n\tfoo()\n\tbaz()\n}\n", true},
+	{"untouched-declaration-behind-two-import-declarations-one-replaced", "@@\n@@\n-import \"old/pkg\"\n+import \"new/pkg\"\n\n-pkg.Do()\n+pkg.Do2()\n", "package a\n\nimport \"context\"\n\nimport \"old/pkg\"\n\nvar cfg = []int{\n\t1, // one\n\t// two is the default\n\t2,\n}\n\nfunc f(ctx context.Context) { pkg.Do() }\n", true},
 	{"elision-both-sides", "@@\n@@\n func f() {\n   ...\n-  foo()\n+  bar()\n+  baz()\n   ...\n }\n", "package a\n\nfunc f() {\n\ta()\n\tfoo()\n\tb()\n\tc()\n}\n", true},
 }
 
@@ -139,6 +140,13 @@ func TestGvcReplay(t *testing.T) {
 		if strings.Contains(in.Obligation, "the-slot-written-is-the-slot-that-matched") && sc.name == "added-import-and-top-level-decl" && r.err == nil &&
 			(!bytes.Contains(r.out, []byte("var before = 1")) || bytes.Contains(r.out, []byte("println(\"hi\")")) || bytes.Count(r.out, []byte("func hello()")) != 1) {
 			report(sc, fmt.Sprintf("the change adds an import and rewrites func hello; the rewritten declaration was written over another declaration: Apply returned %q", r.out))
+		}
+		if in.Property == "C17" && sc.name == "untouched-declaration-behind-two-import-declarations-one-replaced" && r.err == nil {
+			for _, c := range []string{"// one", "// two is the default"} {
+				if bytes.Count(r.out, []byte(c)) != 1 {
+					report(sc, fmt.Sprintf("comment %q inside the untouched declaration `var cfg` occurs %d times in the output (want 1): %q", c, bytes.Count(r.out, []byte(c)), r.out))
+				}
+			}
 		}
 		if (in.Property == "C17" || in.Property == "C05") && sc.name == "comments-of-a-function-between-two-rewritten-calls" && r.err == nil {
 			for _, c := range []string{"// Doc of middle.", "// inside middle", "// trailing in middle"} {
